@@ -370,6 +370,66 @@ func runContractSizeResponses(b *harness.B) {
 	sort.Slice(table, func(i, j int) bool { return table[i].Log2Sectors < table[j].Log2Sectors })
 	b.Sample(map[string]any{"kind": "RPCFreeSectorsResponse size by contract size (max batch)", "limit": free.recvLimit(), "table": table})
 
+	// the signature message of a contract formation carries one satisfied policy per renter input of the request:
+	// the largest request the host's own limit admits must lead to a second response the host can read
+	{
+		formReq := find("rhp4.RPCFormContractRequest")
+		second := find("rhp4.RPCFormContractSecondResponse")
+		const proofLen = 20
+		mk := func(n int) *rhp4.RPCFormContractRequest {
+			o := formReq.max(g, k).(*rhp4.RPCFormContractRequest)
+			o.RenterParents = nil
+			o.RenterInputs = nil
+			for i := 0; i < n; i++ {
+				e := types.SiacoinElement{ID: types.SiacoinOutputID(g.hash()), SiacoinOutput: types.SiacoinOutput{Value: types.Siacoins(100), Address: types.StandardUnlockHash(k.hostPK)}}
+				e.StateElement.LeafIndex = uint64(1000 + i)
+				e.StateElement.MerkleProof = g.fastHashes(proofLen)
+				o.RenterInputs = append(o.RenterInputs, e)
+			}
+			return o
+		}
+		fitsReq := func(n int) bool {
+			enc, err := r4Encode(formReq, mk(n))
+			return err == nil && int64(len(enc)) <= formReq.recvLimit()
+		}
+		lo, hi := 1, 4096
+		for lo < hi {
+			m := (lo + hi + 1) / 2
+			if fitsReq(m) {
+				lo = m
+			} else {
+				hi = m - 1
+			}
+		}
+		n := lo
+		req := mk(n)
+		b.Eval(1)
+		wit := map[string]any{"renter_inputs": n, "proof_hashes_per_input": proofLen}
+		if formReq.validate != nil {
+			if err := formReq.validate(req, k); err != nil {
+				wit["request_validate_error"] = err.Error()
+			}
+		}
+		encReq, _ := r4Encode(formReq, req)
+		if _, _, err := r4Decode(formReq, bytes.NewReader(encReq)); err != nil {
+			b.Inconclusive("largest formation request within its limit does not decode: " + err.Error())
+		} else {
+			var sps []types.SatisfiedPolicy
+			for i := 0; i < n; i++ {
+				sps = append(sps, types.SatisfiedPolicy{Policy: types.SpendPolicy{Type: types.PolicyTypeUnlockConditions(types.StandardUnlockConditions(k.hostPK))}, Signatures: []types.Signature{g.sig()}})
+			}
+			resp := &rhp4.RPCFormContractSecondResponse{RenterContractSignature: g.sig(), RenterSatisfiedPolicies: sps}
+			enc, _ := r4Encode(second, resp)
+			wit["request_bytes"], wit["request_limit"], wit["second_response_bytes"], wit["second_response_limit"] = len(encReq), formReq.recvLimit(), len(enc), second.recvLimit()
+			b.Count("request_determined_responses_checked", 1)
+			if _, _, err := r4Decode(second, bytes.NewReader(enc)); err != nil {
+				wit["read_error"] = err.Error()
+				b.Violate("C19/exceeds-maxLen/rhp4.RPCFormContractSecondResponse/one-policy-per-input-of-the-largest-request-within-its-limit",
+					fmt.Sprintf("a formation request with %d renter inputs (%d bytes) is within the host's request limit (%d); the matching signature message with one single-signature policy per input needs %d bytes, the host reads at most %d: %v", n, len(encReq), formReq.recvLimit(), len(enc), second.recvLimit(), err), wit)
+			}
+		}
+	}
+
 	// AppendSectorsResponse and SectorRootsResponse over contract sizes
 	app := find("rhp4.RPCAppendSectorsResponse")
 	roots := find("rhp4.RPCSectorRootsResponse")
